@@ -179,6 +179,24 @@ def rejections(sess, suite):
         r = sess.call(req, EXACT, "refresh_dkg3-threshold")
         sess.oracle(r.err == "InvalidMinSigners", "distributed refresh changing the threshold not refused (%s)" % r.raw, [req])
         sess.case("dkgthr|" + req)
+    # distributed: ONE peer ran part 1 with another threshold (longer / shorter commitment); every position of that peer
+    for tt in (3, 1 + 1):
+        pass
+    for odd_t in (3,):
+        for odd in ids[:3]:
+            d = Dkg(sess, suite, 3, 2, ids[:3], refresh=True)
+            d.part1()
+            o = Dkg(sess, suite, 3, odd_t, ids[:3], refresh=True)
+            o.part1()
+            if not (d.ok and o.ok):
+                continue
+            m = dict(d.pkg1)
+            m[odd] = o.pkg1[odd]
+            for me in [x for x in ids[:3] if x != odd]:
+                req = "refresh_dkg2 %s sp=%s r1=%s" % (suite, d.sp1[me], r1_str(m, me))
+                r = sess.call(req, EXACT, "refresh_dkg2-peer-threshold")
+                sess.oracle(r.err == "IncorrectNumberOfCommitments", "distributed refresh: a peer contribution made for another threshold was not refused by part 2 (%s)" % r.raw[:80], [req])
+                sess.case("dkgpeerthr|" + req)
     # distributed: non-zero constant term contribution from one sender
     d = Dkg(sess, suite, 3, 2, ids[:3], refresh=True)
     d.part1()
